@@ -186,6 +186,11 @@ func (a *genericAuthenticator) getSubjectInformation(ctx heimdall.Context, authD
 		if entry, err := cch.Get(ctx.AppContext(), cacheKey); err == nil {
 			logger.Debug().Msg("Reusing subject information from cache")
 
+			// the cached response might originate from an authenticator with other session lifespan settings
+			if _, err = a.verifySession(entry); err != nil {
+				return nil, err
+			}
+
 			return entry, nil
 		}
 	}
@@ -195,17 +200,8 @@ func (a *genericAuthenticator) getSubjectInformation(ctx heimdall.Context, authD
 		return nil, err
 	}
 
-	if a.sessionLifespanConf != nil {
-		session, err = a.sessionLifespanConf.CreateSessionLifespan(payload)
-		if err != nil {
-			return nil, errorchain.New(heimdall.ErrInternal).WithErrorContext(a).CausedBy(err)
-		}
-
-		if session != nil {
-			if err = session.Assert(); err != nil {
-				return nil, errorchain.New(heimdall.ErrAuthentication).WithErrorContext(a).CausedBy(err)
-			}
-		}
+	if session, err = a.verifySession(payload); err != nil {
+		return nil, err
 	}
 
 	if cacheTTL := a.getCacheTTL(session); cacheTTL > 0 {
@@ -215,6 +211,25 @@ func (a *genericAuthenticator) getSubjectInformation(ctx heimdall.Context, authD
 	}
 
 	return payload, nil
+}
+
+func (a *genericAuthenticator) verifySession(payload []byte) (*SessionLifespan, error) {
+	if a.sessionLifespanConf == nil {
+		return nil, nil //nolint:nilnil
+	}
+
+	session, err := a.sessionLifespanConf.CreateSessionLifespan(payload)
+	if err != nil {
+		return nil, errorchain.New(heimdall.ErrInternal).WithErrorContext(a).CausedBy(err)
+	}
+
+	if session != nil {
+		if err = session.Assert(); err != nil {
+			return nil, errorchain.New(heimdall.ErrAuthentication).WithErrorContext(a).CausedBy(err)
+		}
+	}
+
+	return session, nil
 }
 
 func (a *genericAuthenticator) fetchSubjectInformation(ctx heimdall.Context, authData string) ([]byte, error) {
